@@ -16,7 +16,7 @@ LEVEL = "fault_enumeration"
 NEEDS = ["harness", "cli", "shim"]
 RULE = ("files per format (vcf, vcf.gz, bgzf bcf, raw bcf; 0.4-3 KB; npy and text spectra): quick 1 / thorough 6 per shard-format; for EACH file the first "
         "chunk length takes every value 1..len (exhaustive) x rest {all at once, random 1-64, 1 byte}, and each first-chunk length once more with the reader builder's options given explicitly (compression given + format detected / compression detected + format given / both given); a read fault (kinds Other, BrokenPipe, "
-        "ConnectionReset; the reader then keeps failing / reports end of input / carries on) at every offset 0..len-1 (L) / a strided subset (S); writers accepting 1-7 bytes per call and failing at every offset. "
+        "ConnectionReset; the reader then keeps failing / reports end of input / carries on) at every offset 0..len-1 (L) / a strided subset (S); writers accepting 1-7 bytes per call and failing at every offset; `-o FILE` over a path that is absent / holds a longer earlier result / longer garbage leaves exactly the bytes a pipe receives. "
         "Baseline = the all-at-once result. A fault only obliges failure when the adapter recorded that it was DELIVERED. "
         "Non-trivial: any schedule with first chunk < len, any delivered fault; distinct = (file digest, schedule/fault).")
 ASSUMPTIONS = ["UnexpectedEof / Interrupted are not injected: std and noodles legitimately treat them as end-of-stream / retry",
@@ -486,6 +486,10 @@ def check_S_output_path(S, p):
                 S.viol("C18:write-fault:S:output-path", "[S %r -o /dev/full, %d values] every write() fails with ENOSPC but the run exited 0" % (sub, len(vals)),
                        {"level": "S", "argv": r.argv, "input_b64": E.b64(spec_in), "replay": __import__("vf.replay", fromlist=["x"]).exit_status(r, True)})
             S.case(key="%s|devfull|%s" % (digest(spec_in), sub), nontrivial=True)
+            # ... and a successful write leaves exactly the bytes a pipe receives, whatever the path held before
+            from ..engines import outpath
+            outpath.check_file_equals_pipe(S, "C18:output-path-bytes", "S %r, %d values" % (sub, len(vals)), rng, sub, spec_in,
+                                           state=["longer-earlier-output", "longer-garbage", "absent"][k % 3])
             out = os.path.join(scratch_dir(), "out-%d-%d.sfs" % (os.getpid(), k))
             full = cli.sfs(sub + ["-o", out], stdin=spec_in)
             try:
